@@ -69,3 +69,9 @@ func VerifTryLock(te TableEngine) bool {
 	}
 	return false
 }
+
+// VerifJoinReadyGroup returns the engine's auto-join ready group (the one that
+// waits for reserved players to sit in).
+func VerifJoinReadyGroup(te TableEngine) *syncsaga.ReadyGroup {
+	return te.(*tableEngine).rg
+}
